@@ -715,7 +715,8 @@ impl TryFrom<&[u8]> for AdcV3Packet {
             ChannelId::A32((channel_id - 128).try_into()?)
         };
         let requested_samples = slice[6..8].try_into().unwrap();
-        let requested_samples = u16::from_be_bytes(requested_samples).into();
+        let requested_samples: usize = u16::from_be_bytes(requested_samples).into();
+        let max_samples = requested_samples.saturating_sub(2);
         let lsw_event_timestamp = slice[8..12].try_into().unwrap();
 
         let suppression_baseline = slice[slice.len() - 2..].try_into().unwrap();
@@ -798,7 +799,7 @@ impl TryFrom<&[u8]> for AdcV3Packet {
             return Err(Self::Error::BadNumberOfSamples {
                 found: waveform.len(),
                 min: BASELINE_SAMPLES,
-                max: requested_samples - 2,
+                max: max_samples,
             });
         }
         let data_baseline = {
@@ -836,14 +837,14 @@ impl TryFrom<&[u8]> for AdcV3Packet {
                 return Err(Self::Error::BadNumberOfSamples {
                     found: waveform.len(),
                     min: last_index + 1,
-                    max: requested_samples - 2,
+                    max: max_samples,
                 });
             }
-            if waveform.len() > requested_samples - 2 {
+            if waveform.len() > max_samples {
                 return Err(Self::Error::BadNumberOfSamples {
                     found: waveform.len(),
                     min: last_index + 1,
-                    max: requested_samples - 2,
+                    max: max_samples,
                 });
             }
         } else {
@@ -859,7 +860,7 @@ impl TryFrom<&[u8]> for AdcV3Packet {
                     return Err(Self::Error::BadNumberOfSamples {
                         found: waveform.len(),
                         min: last_index + 1,
-                        max: requested_samples - 2,
+                        max: max_samples,
                     });
                 }
             } else if keep_last != 0 {
@@ -868,11 +869,11 @@ impl TryFrom<&[u8]> for AdcV3Packet {
                     limit: 0,
                 });
             }
-            if waveform.len() != requested_samples - 2 {
+            if waveform.len() != max_samples {
                 return Err(Self::Error::BadNumberOfSamples {
                     found: waveform.len(),
-                    min: requested_samples - 2,
-                    max: requested_samples - 2,
+                    min: max_samples,
+                    max: max_samples,
                 });
             }
         }
